@@ -30,6 +30,7 @@ class Environment(object):
 
         self.prepare_thread = None
         self.prepare_lock = Lock()
+        self.call_lock = Lock()
 
     def _run(self):
         from subprocess import Popen
@@ -98,8 +99,11 @@ class Environment(object):
         except AttributeError:
             self.run()
 
-        self.conn.send_bytes(dumps((name, args, kwargs)))
-        result, is_ok = loads(self.conn.recv_bytes())
+        # a request and its reply belong together: the calls of several
+        # threads take turns on the connection
+        with self.call_lock:
+            self.conn.send_bytes(dumps((name, args, kwargs)))
+            result, is_ok = loads(self.conn.recv_bytes())
 
         if is_ok:
             return result
